@@ -142,10 +142,12 @@ class Render(object):
 
     def __init__(self):
         self.I = Intern()       # one table per check run: equal values get equal numbers in every trace
-        self.keys = {}          # key string -> NLRI dictionary (built independently of the code)
+        # key string -> NLRI dictionary (built independently of the code), per direction: received rules
+        # have the parser's key types (flowspec: integers), sent ones come from JSON (strings)
+        self.keys = {'recv': {}, 'send': {}}
 
-    def learn(self, rule):
-        self.keys[keystr(rule)] = rule
+    def learn(self, side, rule):
+        self.keys[side][keystr(rule)] = rule
 
     def prefix(self, p):
         return self.I('p', p)
@@ -153,8 +155,8 @@ class Render(object):
     def rule(self, r):
         return [[kcode(k), self.I('v', canon(str(v)))] for k, v in r.items()]
 
-    def rkey(self, s):
-        r = self.keys.get(s)
+    def rkey(self, side, s):
+        r = self.keys[side].get(s)
         if r is None:
             return [[999999, self.I('unknown-key', s)]]
         return [[kcode(k), self.I('v', canon(str(r[k])))] for k in sorted(r.keys())]
@@ -177,16 +179,16 @@ class Render(object):
         def ptable(d):
             return [[self.prefix(k), self.attrs(v)] for k, v in d.items()]
 
-        def rtable(d):
-            return [[self.rkey(k), self.attrs(v)] for k, v in d.items()]
+        def rtable(side, d):
+            return [[self.rkey(side, k), self.attrs(v)] for k, v in d.items()]
 
         def vers(v):
             return [v['ipv4'], v['flowspec'], v['sr_policy'], v['mpls_vpn']]
         return [ptable(p.adj_rib_in['ipv4']), ptable(p.adj_rib_out['ipv4']),
                 vers(p.receive_version), vers(p.send_version),
-                rtable(p.flowspec_send_dict), rtable(p.flowspec_receive_dict),
-                rtable(p.sr_send_dict), rtable(p.sr_receive_dict),
-                rtable(p.mpls_vpn_send_dict), rtable(p.mpls_vpn_receive_dict)]
+                rtable('send', p.flowspec_send_dict), rtable('recv', p.flowspec_receive_dict),
+                rtable('send', p.sr_send_dict), rtable('recv', p.sr_receive_dict),
+                rtable('send', p.mpls_vpn_send_dict), rtable('recv', p.mpls_vpn_receive_dict)]
 
     # Coq terms of the model's inputs
     def coq_mp(self, m):
@@ -313,8 +315,8 @@ FAMS = {(1, 133): 'flowspec', (1, 73): 'sr_policy', (1, 128): 'mpls_vpn'}
 
 def route_identity(fam, rule):
     if fam == 'mpls_vpn':                      # RFC 4364: the label is not part of the route identity
-        return canon({k: str(v) for k, v in rule.items() if k not in ('label',)})
-    return canon({k: str(v) for k, v in rule.items()})
+        return canon({str(k): str(v) for k, v in rule.items() if k not in ('label',)})
+    return canon({str(k): str(v) for k, v in rule.items()})
 
 
 class Oracle(object):
@@ -371,10 +373,10 @@ class Runner(object):
     def __init__(self):
         self.render = Render()
         for r in FS_RULES + VPN_ROUTES + SR_RULES:
-            self.render.learn(r)
-            self.render.learn(jsonable_rule(r))
+            self.render.learn('recv', r)
+            self.render.learn('send', jsonable_rule(r))
         for r in VPN_ROUTES:                  # what a withdrawal looks like after parsing
-            self.render.learn(dict(r, label=[524288]))
+            self.render.learn('recv', dict(r, label=[524288]))
         self.msgs = dict(explore.messages())
         self.d = Driver(rib=True, afi_safi=AFI_SAFI)
         self.d.apply(('boot',))
@@ -387,12 +389,21 @@ class Runner(object):
     def proto(self):
         return self.d.peering.fsm.protocol
 
+    def do(self, e):
+        """Driver.apply without the abstract-state extraction (which walks every connector ever made)"""
+        Driver.current = self.d
+        assert self.d.enabled(e), e
+        try:
+            self.d._do(e)
+        except Exception:
+            self.d.exc += 1
+
     def establish(self):
         d = self.d
         cid = len(d.sim.connectors) - 1
-        d.apply(('connok', cid))
-        d.apply(('data', cid, self.msgs['open_ok']))
-        d.apply(('data', cid, self.msgs['keepalive']))
+        self.do(('connok', cid))
+        self.do(('data', cid, self.msgs['open_ok']))
+        self.do(('data', cid, self.msgs['keepalive']))
         assert d.peering.fsm.state == 6, d.peering.fsm.state
         self.cid = cid
 
@@ -403,13 +414,13 @@ class Runner(object):
                 break
             for n, _a in session.TIMER_ATTR:
                 if d.enabled(('fire', n)):
-                    d.apply(('fire', n))
+                    self.do(('fire', n))
                     break
         self.establish()
 
     def fresh(self):
         """every trace starts on a new connection"""
-        self.d.apply(('lost', self.cid))
+        self.do(('lost', self.cid))
         self.reconnect()
 
     def wire(self, msg):
@@ -441,12 +452,12 @@ class Runner(object):
                 msg = {'attr': parsed['attr'], 'nlri': parsed['nlri'], 'withdraw': parsed['withdraw']}
                 if parsed['sub_error']:
                     raise AssertionError('generator produced an UPDATE with sub_error %r' % (e,))
-                before = {f: self.abs_mp(getattr(p, t)) for f, t in
+                before = {f: self.abs_mp('recv', getattr(p, t)) for f, t in
                           (('flowspec', 'flowspec_receive_dict'), ('mpls_vpn', 'mpls_vpn_receive_dict'))}
                 vbefore = dict(p.receive_version)
                 sendbefore = dict(p.send_version)
                 exc0 = self.d.exc
-                self.d.apply(('data', self.cid, data))
+                self.do(('data', self.cid, data))
                 if self.d.exc != exc0:
                     bad('exception while the UPDATE was processed', i)
                 coq.append('(ERecv %s)' % R.coq_update(msg))
@@ -460,7 +471,7 @@ class Runner(object):
                 # -- oracle: flowspec / mpls_vpn / sr_policy per message
                 for fam, tbl in (('flowspec', 'flowspec_receive_dict'), ('mpls_vpn', 'mpls_vpn_receive_dict')):
                     exp, n = mp_expect(before[fam], fam, msg['attr'])
-                    got = self.abs_mp(getattr(p, tbl))
+                    got = self.abs_mp('recv', getattr(p, tbl))
                     dv = p.receive_version[fam] - vbefore[fam]
                     if got != exp or dv != n:
                         known = None
@@ -475,7 +486,7 @@ class Runner(object):
                     bad('send_version moved by a received UPDATE', i)
             elif e[0] == 'send':
                 msg = e[1]
-                sbefore = {f: self.abs_mp(getattr(p, t)) for f, t in
+                sbefore = {f: self.abs_mp('send', getattr(p, t)) for f, t in
                            (('flowspec', 'flowspec_send_dict'), ('mpls_vpn', 'mpls_vpn_send_dict'),
                             ('sr_policy', 'sr_send_dict'))}
                 vbefore = dict(p.send_version)
@@ -506,7 +517,7 @@ class Runner(object):
                 for fam, tbl in (('flowspec', 'flowspec_send_dict'), ('mpls_vpn', 'mpls_vpn_send_dict'),
                                  ('sr_policy', 'sr_send_dict')):
                     exp, n = mp_expect(sbefore[fam], fam, stored['attr'])
-                    got = self.abs_mp(getattr(p, tbl))
+                    got = self.abs_mp('send', getattr(p, tbl))
                     dv = p.send_version[fam] - vbefore[fam]
                     if got != exp or dv != n:
                         bad('sent %s: counter moved by %d for %d table changes; table %s'
@@ -515,7 +526,7 @@ class Runner(object):
                     bad('receive_version moved by a sent UPDATE', i)
             else:
                 old = p
-                self.d.apply(('lost', self.cid))
+                self.do(('lost', self.cid))
                 coq.append('ELost')
                 states.append(R.state(old))
                 if old.adj_rib_in['ipv4'] or old.adj_rib_out['ipv4'] or \
@@ -536,10 +547,10 @@ class Runner(object):
         return coq, states, viol
 
     # -- abstraction of an implementation dictionary for the oracle: route identity -> value
-    def abs_mp(self, d):
+    def abs_mp(self, side, d):
         out = {}
         for k, v in d.items():
-            rule = self.render.keys.get(k)
+            rule = self.render.keys[side].get(k)
             fam = FAMS.get(tuple(v[14]['afi_safi'])) if 14 in v else None
             rid = ('?', k) if rule is None else route_identity(fam, rule)
             if rid in out:
@@ -620,7 +631,8 @@ def run(ctx):
             for x in v2:
                 x['input'] = [describe(e) for e in evs]
                 x['kind'] = kind + '/REST'
-                x['what'] = 'through POST /v1/peer/<ip>/send/update: ' + x['what']
+                if x['what'].startswith(('sent', 'adj_rib_out', 'send_version', 'REST')):
+                    x['what'] = 'through POST /v1/peer/<ip>/send/update: ' + x['what']
             viol += v2
             if coq2 != coq or states2 != states:
                 viol.append({'what': 'REST send path and the direct protocol calls leave different tables/counters',
